@@ -298,6 +298,10 @@ func cmdCheck(args []string) int {
 	for _, r := range results {
 		byName[r.Name] = r
 	}
+	if *update && len(specErrors) > 0 {
+		fmt.Fprintln(os.Stderr, "gocv: refusing to rewrite the obligation list: contracts could not be evaluated (see above)")
+		return 2
+	}
 	if *update {
 		var names []string
 		for _, r := range results {
